@@ -21,7 +21,7 @@ TrToController ==
                   inport |-> Ev.obs.inport, reason |-> Ev.obs.reason]
 TrUse(k) ==
   /\ IsEvent(k)
-  /\ Use(k, Ev.args.buf, Ev.args.act)
+  /\ Use(k, Ev.args.buf, Ev.args.act, Ev.args.how)
   /\ Ev.wf
   /\ last'.exp.emitted = ToSet(Ev.obs.emitted)
 TrPacketOutData ==
@@ -44,7 +44,7 @@ PinsMatch(ps, os) ==
         /\ (os[i].tag # "?" => ps[i].tag = os[i].tag /\ ps[i].k = os[i].k)
 TrUseL(k) ==
   /\ IsEvent(k \o "L")
-  /\ UseL(k, Ev.args.buf, Ev.args.acts)
+  /\ UseL(k, Ev.args.buf, Ev.args.acts, Ev.args.how)
   /\ Ev.wf
   /\ last'.exp.emitted = ToSet(Ev.obs.emitted) /\ PinsMatch(last'.exp.pins, Ev.obs.pins)
 TrPacketOutDataL ==
